@@ -12,19 +12,19 @@ type Scenario struct {
 	Name     string
 	Kind     string // what the scenario exercises (also the prefix of oracle keys)
 	Prog     *Prog
-	NoOracle bool   // behaviour outside the property's reading: compared with the model only
+	NoOracle bool // behaviour outside the property's reading: compared with the model only
 	Note     string
 }
 
 type G struct {
-	r     *vh.Rand
-	sfx   string
-	pid   int // probe ids
-	nv    int // variable names
-	funcs []*Func
-	ints  []string // int variables in scope
-	lists []string // []int variables in scope
-	locals []Param // locals of the entry function, probed at the end
+	r      *vh.Rand
+	sfx    string
+	pid    int // probe ids
+	nv     int // variable names
+	funcs  []*Func
+	ints   []string // int variables in scope
+	lists  []string // []int variables in scope
+	locals []Param  // locals of the entry function, probed at the end
 }
 
 func newG(r *vh.Rand, sfx string) *G { return &G{r: r, sfx: sfx} }
